@@ -770,7 +770,7 @@ def rule_forwarding(ck: Check, repo: Repo) -> None:
     calls = find_calls(main, lambda c, f: f == "ClickObj")
     if not calls:
         raise AnalysisError("reuse.cli.main.main: ClickObj construction vanished")
-    for p in ("root", "include_submodules", "include_meson_subprojects", "no_multiprocessing"):
+    for p in ("root", "include_submodules", "include_meson_subprojects"):   # (no_multiprocessing does not select files)
         a = kwarg(calls[0], p)
         got = ast.unparse(a) if a is not None else "<default>"
         r.instance(f"main->ClickObj:{p}", {"argument": got})
